@@ -25,6 +25,7 @@ import (
 	"github.com/ory/keto/internal/driver"
 	"github.com/ory/keto/internal/namespace"
 	ksql "github.com/ory/keto/internal/persistence/sql"
+	"github.com/ory/keto/internal/x/dbx"
 	rts "github.com/ory/keto/proto/ory/keto/relation_tuples/v1alpha2"
 )
 
@@ -68,8 +69,12 @@ func nsList(names ...string) []*namespace.Namespace {
 }
 
 func newEnv(t testing.TB, opts ...driver.TestRegistryOption) *env {
+	return newEnvDSN(t, dbx.GetSqlite(t, dbx.SQLiteMemory), opts...)
+}
+
+func newEnvDSN(t testing.TB, dsn *dbx.DsnT, opts ...driver.TestRegistryOption) *env {
 	opts = append([]driver.TestRegistryOption{driver.WithLogLevel("panic")}, opts...)
-	reg := driver.NewSqliteTestRegistry(t, false, opts...)
+	reg := driver.NewTestRegistry(t, dsn, opts...)
 	reg.Logger().Logrus().SetOutput(io.Discard)
 	reg.Logger().Logrus().SetLevel(logrus.PanicLevel)
 	ctx := context.Background()
@@ -166,12 +171,19 @@ func (p *namePool) uid(u uuid.UUID) string {
 
 // dump returns the canonical contents of both tables: sorted rows, sorted mappings
 func (e *env) dump(p *namePool) string {
+	rs, ms, errs := e.dumpParts(p)
+	if errs != "" {
+		return errs
+	}
+	return fmt.Sprintf("D %d %s %d %s", len(rs), strings.Join(rs, " "), len(ms), strings.Join(ms, " "))
+}
+
+func (e *env) dumpParts(p *namePool) (rs, ms []string, errs string) {
 	conn := e.reg.Persister().Connection(e.ctx)
 	var rows []*ksql.RelationTuple
 	if err := conn.RawQuery("SELECT * FROM keto_relation_tuples").All(&rows); err != nil {
-		return "DUMPERR " + hx(err.Error())
+		return nil, nil, "DUMPERR " + hx(err.Error())
 	}
-	var rs []string
 	for _, r := range rows {
 		net, ok := p.nets[r.NetworkID]
 		if !ok {
@@ -188,9 +200,8 @@ func (e *env) dump(p *namePool) string {
 	sort.Strings(rs)
 	var maps []*ksql.UUIDMapping
 	if err := conn.RawQuery("SELECT * FROM keto_uuid_mappings").All(&maps); err != nil {
-		return "DUMPERR " + hx(err.Error())
+		return nil, nil, "DUMPERR " + hx(err.Error())
 	}
-	var ms []string
 	for _, m := range maps {
 		x, ok := p.byID[m.ID]
 		if ok && x[1] == m.StringRepresentation {
@@ -200,7 +211,7 @@ func (e *env) dump(p *namePool) string {
 		}
 	}
 	sort.Strings(ms)
-	return fmt.Sprintf("D %d %s %d %s", len(rs), strings.Join(rs, " "), len(ms), strings.Join(ms, " "))
+	return rs, ms, ""
 }
 
 var _ = rts.NewSubjectID
